@@ -101,7 +101,7 @@ func (ctx *parseContext) resolveImport(node Node, name string, expansionDepth in
 			return nil, err
 		}
 	}
-	nodes, snips, macros, err := readTree(src, file, expansionDepth+1, ctx.importBudget)
+	nodes, snips, macros, err := readTree(src, file, expansionDepth+1, ctx.importBudget, ctx.macroBudget)
 	if err != nil {
 		return nodes, err
 	}
@@ -146,6 +146,11 @@ func (ctx *parseContext) expandMacros(node *Node) error {
 		if len(newArgs) > maxExpandedArgs {
 			return ctx.Err("too many arguments after macro expansion")
 		}
+		// Values are shared, each argument costs a string header.
+		*ctx.macroBudget -= 16 * len(replacement)
+		if *ctx.macroBudget < 0 {
+			return ctx.Err("macro expansion results are too big")
+		}
 	}
 	node.Args = newArgs
 
@@ -166,6 +171,10 @@ func (ctx *parseContext) expandMacros(node *Node) error {
 const (
 	maxExpandedArgs   = 65536
 	maxExpandedArgLen = 1024 * 1024
+	// maxExpandedTotal limits the results of all expansions done while
+	// reading a configuration: a big (but allowed) macro value can be used
+	// on any number of lines.
+	maxExpandedTotal = 64 * 1024 * 1024
 )
 
 var macroRe = regexp.MustCompile(`\$\(([^\$]+)\)`)
@@ -188,6 +197,10 @@ func (ctx *parseContext) expandSingleValueMacro(arg string) (string, error) {
 		arg = strings.Replace(arg, "$("+macroName+")", value, -1)
 		if len(arg) > maxExpandedArgLen {
 			return "", ctx.Err("too long argument after macro expansion")
+		}
+		*ctx.macroBudget -= len(arg)
+		if *ctx.macroBudget < 0 {
+			return "", ctx.Err("macro expansion results are too big")
 		}
 	}
 
